@@ -15,3 +15,4 @@ import GoFlags.Props.C17
 #print axioms GoFlags.C17.wrapLine_pieces
 #print axioms GoFlags.C17.runeCount_append_spaces
 #print axioms GoFlags.C17.description_column_is_common
+#print axioms GoFlags.C17.facts_layout_constants
